@@ -331,6 +331,22 @@ func c06histBody(depth int) func() {
 				}
 			}
 			sched.WaitQuiescent()
+			// the per-host connection count (what least-connection compares) never exceeds the established connections
+			open := map[string]uint64{}
+			for _, c := range w.conns {
+				if c.backend != "" && !c.bconn.Peer().IsClosed() { // (the proxy's own end of the upstream connection)
+					open[c.backend]++
+				}
+			}
+			for _, n := range []string{"a", "b", "c"} {
+				if !w.members[n] {
+					continue
+				}
+				// (a member announced again is a fresh object that starts counting at 0: fewer is tolerated, more is not)
+				if h := w.stored(n); h != nil && h.ConnCount() > open[n] {
+					sched.Fail("host-counted-with-more-connections-than-established", fmt.Sprintf("%s history %v: host %s is counted with %d connections, %d are established", policy, hist, n, h.ConnCount(), open[n]))
+				}
+			}
 			// connections to hosts that are not members any more must be closed on both sides
 			for _, c := range w.conns {
 				if c.backend == "" || w.members[c.backend] || c.client.IsClosed() {
